@@ -720,7 +720,7 @@ class Scalar(Qube):
         a = Scalar.as_scalar(a, recursive=recursive)
         b = Scalar.as_scalar(b, recursive=recursive)
         c = Scalar.as_scalar(c, recursive=recursive)
-        (a, b, c) = Scalar.broadcast(a, b, c)
+        (a, b, c) = Scalar.broadcast(a, b, c, _protected=False)
 
         neg_half_b = -0.5 * b
         discr = neg_half_b**2 - a*c
